@@ -39,17 +39,20 @@ Interleave(chans, n) == [i \in 1..(n * Len(chans)) |-> chans[((i - 1) % Len(chan
 
 \* ---- WAV / W64 layout: per channel a 4 byte header (predictor LE, step index, reserved), then groups of 4 bytes per channel,
 \*      low nibble first; the header predictor is the first sample of the block
-ImaWavChanNibs(b, ch, c) ==
-    LET groups == (Len(b) - 4 * ch) \div (4 * ch)
-        byteAt(g, k) == b[4 * ch + (g - 1) * 4 * ch + (c - 1) * 4 + k]          \* g in 1..groups, k in 1..4
-    IN [i \in 1..(8 * groups) |->
-          LET g == (i - 1) \div 8 + 1  k == ((i - 1) % 8) \div 2 + 1  by == byteAt(g, k) IN
-          IF (i - 1) % 2 = 0 THEN by % 16 ELSE by \div 16]
+\* nibble of sample k (1-based, after the header sample) of channel c
+ImaWavNib(b, ch, c, k) ==
+    LET g == (k - 1) \div 8  j == (k - 1) % 8
+        by == b[4 * ch + g * 4 * ch + (c - 1) * 4 + j \div 2 + 1]
+    IN IF j % 2 = 0 THEN by % 16 ELSE by \div 16
 ImaWavBlock(b, ch) ==
-    LET chanOut(c) == DecodeNibs([p |-> S16(b[(c - 1) * 4 + 1] + 256 * b[(c - 1) * 4 + 2]), x |-> Clamp(b[(c - 1) * 4 + 3], 0, 88)],
-                                 ImaWavChanNibs(b, ch, c), TRUE)
-        outs == [c \in 1..ch |-> chanOut(c)]
-    IN Interleave(outs, Len(outs[1]))
+    LET groups == (Len(b) - 4 * ch) \div (4 * ch)
+        \* nibbles in output (interleaved) order
+        order == [j \in 1..(8 * groups * ch) |-> ImaWavNib(b, ch, ((j - 1) % ch) + 1, ((j - 1) \div ch) + 1)]
+        s0(c) == [p |-> S16(b[(c - 1) * 4 + 1] + 256 * b[(c - 1) * 4 + 2]), x |-> Clamp(b[(c - 1) * 4 + 3], 0, 88)]
+        acc(a, n) == LET c == (a.k % ch) + 1  t == StepNib(a.st[c], n) IN
+                     [st |-> [a.st EXCEPT ![c] = t], out |-> Append(a.out, t.p), k |-> a.k + 1]
+        init == [st |-> [c \in 1..ch |-> s0(c)], out |-> [c \in 1..ch |-> s0(c).p], k |-> 0]
+    IN SX!FoldLeft(acc, init, order).out
 
 \* ---- AIFF layout: per channel a 34 byte packet: 2 byte header (upper 9 bits predictor, lower 7 bits step index), 32 bytes = 64
 \*      samples, low nibble first; no sample is emitted for the header
